@@ -392,6 +392,30 @@ func (c *FnCtx) havocHeap(st *State, prefix string) {
 	}
 }
 
+// havocHeapLib: a call into a dependency without a contract may change every heap family except the
+// ghost fields the contract file declares (gf / gfa): those are written by ghost statements only.
+func (c *FnCtx) havocHeapLib(st *State) {
+	ghost := func(k string) bool { return strings.HasPrefix(k, "G$gf.") || strings.HasPrefix(k, "G$gfa.") }
+	for _, k := range sortedKeys(c.eng.heapSorts) {
+		if ghost(k) {
+			c.heapGet(st, k, c.eng.heapSorts[k])
+		}
+	}
+	keep := map[string]string{}
+	for k, t := range st.heap {
+		if ghost(k) {
+			keep[k] = t
+		}
+	}
+	c.havocHeap(st, "")
+	for k, t := range keep {
+		st.heap[k] = t
+	}
+	if len(keep) > 0 {
+		c.assumptions["ghost fields (gf / gfa) are not changed by calls into dependencies"] = true
+	}
+}
+
 // havocHeapFresh: the families with this prefix change, but only in objects allocated after this point.
 func (c *FnCtx) havocHeapFresh(st *State, prefix string) {
 	c.havocHeapFreshFrom(st, prefix, st.clone())
